@@ -175,6 +175,8 @@ def _realise_loop(k, pre, it):
 
 @register
 class SSI_multi_setup(Contract):
+    term_level = True      # obligations over opaque kernels (svd / qr / inv / pinv as uninterpreted matrix terms): see runner
+
     qualname = "pyoma2.functions.ssi.SSI_multi_setup"
     props = ("C03",)
     name = "structure"
